@@ -60,7 +60,7 @@ def run(rep, tier, seed):
     d = core.workdir("c24")
     try:
         jobs = []
-        for i in range(300 if tier == "quick" else 4000):
+        for i in range(700 if tier == "quick" else 4000):
             base = random_program(rnd, nstmts=rnd.randint(1, 4), depth=2, probes=False, features={"onekeymaps": True})   # map display order is not settled
             # print what was observed, so that the runs have output to compare
             tail = tail_variants(rnd)
